@@ -152,7 +152,10 @@ fn wrong_hex(s: &str, how: usize) -> String {
         3 => {
             b.pop();
         }
-        _ => b.push(b'0'),
+        4 => b.push(b'0'),
+        5 => b.clear(),
+        6 => b.truncate(b.len() / 2),
+        _ => b.extend_from_slice(s.as_bytes()),
     }
     String::from_utf8(b).unwrap()
 }
@@ -167,7 +170,7 @@ fn synthesise(rng: &mut Rng, thorough: bool) -> Vec<(String, Vec<u8>)> {
         let pd = hex::encode(sha2::Sha256::digest(payload));
         // payload digest variants: (label, Option<(digest items, algo)>)
         let mut pvars: Vec<(String, Option<(Vec<String>, Option<u32>)>)> = vec![("no-payload-digest".into(), None), ("payload-ok".into(), Some((vec![pd.clone()], Some(8))))];
-        for how in 0..5 {
+        for how in 0..8 {
             pvars.push((format!("payload-wrong{how}"), Some((vec![wrong_hex(&pd, how)], Some(8)))));
         }
         for a in &algos[1..] {
@@ -196,9 +199,11 @@ fn synthesise(rng: &mut Rng, thorough: bool) -> Vec<(String, Vec<u8>)> {
             };
             let sha1 = hex::encode(sha1::Sha1::digest(&hdr));
             let sha256 = hex::encode(sha2::Sha256::digest(&hdr));
-            // each header digest: 0 absent, 1 right, 2.. wrong variants
-            let states: usize = if thorough { 7 } else { 4 };
-            for m in 0..states.min(4) {
+            // each header digest: 0 absent, 1 right, 2.. wrong variants (the quick tier keeps one
+            // same-length, one shorter, one longer and the empty value)
+            let hows: &[usize] = if thorough { &[0, 1, 2, 3, 4, 5, 6, 7] } else { &[0, 3, 4, 5] };
+            let states = 2 + hows.len();
+            for m in 0..if thorough { 6 } else { 5 } {
                 for s1 in 0..states {
                     for s2 in 0..states {
                         // the quick tier thins the product (all single/double combinations remain)
@@ -207,17 +212,19 @@ fn synthesise(rng: &mut Rng, thorough: bool) -> Vec<(String, Vec<u8>)> {
                         }
                         let mut sitems: Vec<(u32, Val)> = Vec::new();
                         if s1 > 0 {
-                            sitems.push((tag::SIG_SHA1, Val::str(&if s1 == 1 { sha1.clone() } else { wrong_hex(&sha1, s1 - 2) })));
+                            sitems.push((tag::SIG_SHA1, Val::str(&if s1 == 1 { sha1.clone() } else { wrong_hex(&sha1, hows[s1 - 2]) })));
                         }
                         if s2 > 0 {
-                            sitems.push((tag::SIG_SHA256, Val::str(&if s2 == 1 { sha256.clone() } else { wrong_hex(&sha256, s2 - 2) })));
+                            sitems.push((tag::SIG_SHA256, Val::str(&if s2 == 1 { sha256.clone() } else { wrong_hex(&sha256, hows[s2 - 2]) })));
                         }
                         if m > 0 {
                             let mut v = md5.clone();
                             match m {
                                 1 => {}
                                 2 => v[0] ^= 1,
-                                _ => v[15] ^= 0x80,
+                                3 => v[15] ^= 0x80,
+                                4 => v.truncate(15),
+                                _ => v.push(0),
                             }
                             sitems.push((tag::SIG_MD5, Val::Bin(v)));
                         }
